@@ -59,6 +59,11 @@ func joinedOf(sc *Scenario, o *Outcome) joinedMap {
 	if o == nil {
 		return m
 	}
+	if o.ConfigSent != "" {
+		for k, l := range joinedFor(sc, o.ConfigSent) {
+			m[k] = append(m[k], l...)
+		}
+	}
 	for _, name := range o.FileNames() {
 		if strings.HasSuffix(name, "router.config") && o.Files[name] != "" {
 			for k, l := range joinedFor(sc, o.Files[name]) {
